@@ -9,6 +9,7 @@ import (
 
 	"github.com/jhump/grpctunnel"
 	"github.com/jhump/grpctunnel/verifrt"
+	"google.golang.org/grpc/codes"
 )
 
 // ---- core: the flow-control sender / receiver stepped in isolation ----------------------
@@ -506,6 +507,52 @@ func c05TunnelScenarios(tier string) []*Scenario {
 		{"B+B+CS", func() []Workload {
 			return []Workload{StdWorkload("r1", 1, "Bidi", []int{131073}, []int{65537}), StdWorkload("r2", 2, "Bidi", []int{65537}, []int{131073}), StdWorkload("r3", 3, "ClientStream", big(2), []int{3})}
 		}},
+	}
+	for _, cfg := range []TunCfg{{}, {Cap: 1}, {Reverse: true}} {
+		for _, side := range []string{"handler", "caller"} {
+			cfg, side := cfg, side
+			b := 1
+			if thorough {
+				b = 2
+			}
+			scs = append(scs, &Scenario{
+				Name: fmt.Sprintf("c05/tunnel/%s/blocked-%s-cancelled", cfg, side), Prop: "C05",
+				Desc: fmt.Sprintf("a %s is blocked in a send on an exhausted window (its peer reads nothing) on a %s tunnel; the RPC is cancelled as a last resort (or earlier: deviation); the blocked send must return and a second RPC carrying two windows of data must complete; <= %d deviations", side, cfg, b),
+				Opt:  Options{Level: "io", Bound: b},
+				Run: func(w *World) {
+					w.Invariants = append(w.Invariants, flowInvariant(w))
+					t := w.OpenTunnel(cfg)
+					if t.StartErr != nil {
+						return
+					}
+					var d Workload
+					if side == "handler" {
+						d = StdWorkload("d", 9, "ServerStream", []int{3}, nil)
+						d.Call.Ops = []COp{{K: "new"}, {K: "send", Size: 3}, {K: "closesend"}, {K: "waitdone"}}
+						d.Handler.Ops = []HOp{{K: "recv"}, {K: "send", Size: 100000}, {K: "return"}}
+					} else {
+						d = StdWorkload("d", 9, "ClientStream", nil, nil)
+						d.Call.Ops = []COp{{K: "new"}, {K: "send", Size: 100000}, {K: "recvall"}}
+						d.Handler.Ops = []HOp{{K: "waitctx"}, {K: "return", Code: codes.Aborted, Msg: "never read"}}
+					}
+					d.Handler.KeepGoing = true
+					ths := w.StartCallers(t, []Workload{d})
+					w.StartFault(t, "cancel:d")
+					w.Join(ths...)
+					w.Join(w.StartCallers(t, []Workload{StdWorkload("r2", 2, "Bidi", []int{65537}, []int{65537})})...)
+					t.Close()
+				},
+				Check: func(w *World, x *Exec) []Violation {
+					vs := NoHang(x, "C05")
+					if x.Hang {
+						vs[0].Sig = "flow:blocked-sender-cancelled:" + vs[0].Sig
+						return vs
+					}
+					vs = append(vs, msgOracle(w, "C05", []string{"r2"})...)
+					return append(vs, completeOK(w, "C05", StdWorkload("r2", 2, "Bidi", []int{65537}, []int{65537}))...)
+				},
+			})
+		}
 	}
 	for _, cfg := range []TunCfg{{}, {Cap: 1}, {Cap: 2}, {Reverse: true}, {Reverse: true, Cap: 1}} {
 		for _, t := range tls {
